@@ -39,7 +39,7 @@ ASSUMPTIONS = ['only strings are fed (the pipeline feeds internal_hash hex strin
                '(relative std of the linear-counting estimate is <= 0.3 % in this range, so 2 % is > 6 sigma)',
                'value families are injective by construction, so the model distinct count is the number of fresh indices']
 
-FAMILIES = ['hex', 'v', 'uni', 'dec8', 'hexseq', 'sha64', 'nl']
+FAMILIES = ['hex', 'v', 'uni', 'dec8', 'hexseq', 'sha64', 'nl', 'cyr']
 _M32 = 0xFFFFFFFF
 CHUNK = 1 << 16
 SHUFFLE_MAX_ADDS = 3 * B      # shuffle segments re-feed everything: skipped (and counted) beyond this many adds
@@ -66,6 +66,18 @@ def make_values(family, salt, idx):
         return [hashlib.sha256(b'%d' % v).hexdigest() for v in x.tolist()]
     if family == 'uni':
         return ['ключ%d値é' % v for v in x.tolist()]
+    if family == 'cyr':        # words of a non-Latin script: the values differ ONLY in non-ASCII characters (base-32 digits as Cyrillic letters)
+        abc = 'абвгдежзийклмнопрстуфхцчшщъыьэюя'
+        out = []
+        for v in x.tolist():
+            w = []
+            while True:
+                w.append(abc[v & 31])
+                v >>= 5
+                if not v:
+                    break
+            out.append(''.join(w))
+        return out
     if family == 'nl':         # free-text values spanning several lines (LF, CR LF, a trailing newline) - strings like any other
         return ['note %d\nline two\r\n%d\n' % (v, v % 7) for v in x.tolist()]
     raise Inconclusive()
